@@ -255,6 +255,7 @@ def _oracle(ctx):
                 elem = ef()
                 runs = [('whole', lambda: O.projection_whole(m, elem, rng)),
                         ('whole-complex', lambda: O.projection_complex(m, elem, rng)),
+                        ('parts-complex', lambda: O.projection_complex_parts(m, elem, rng, boundary=kind not in ('line', 'wedge'))),
                         ('subdomain', lambda: O.projection_subdomain(m, elem, rng)),
                         ('subdomain-arg', lambda: O.projection_subdomain(m, elem, rng, via_argument=True))]
                 if kind not in ('line', 'wedge'):
